@@ -5,4 +5,9 @@ CfgQuick == {[L |-> l, S |-> s, st |-> t] : l \in 2..5, s \in 1..5, t \in Styles
             {c \in [L : 2..5, S : 1..5, st : Styles] : c.S <= c.L}
 CfgTiny == {c \in [L : 2..3, S : 1..3, st : Styles] : c.S <= c.L}
 CfgThorough == {c \in [L : 2..8, S : 1..8, st : Styles] : c.S <= c.L}
+\* compute_full with a frame shift longer than the frame (outside C01's precondition, inside C02's range)
+CfgGapped == UNION {{[L |-> l, S |-> s, st |-> t] : s \in {l + 1, 2 * l + 1, 2 * l + 3}, t \in Styles} : l \in 2..5}
+C02_GappedFullIsDefinition ==
+  \A c \in CfgGapped : \A n \in 0..(3 * c.S + 3) : FullImplC(c, n, 0) = FullFrames(n, c.L, c.S, c.st, 0)
+ASSUME C02_GappedFullIsDefinition
 ===============================================================================
